@@ -364,6 +364,10 @@ def c03 (v : StepView) : Verdict :=
     if !orderOk idx then bad "umount -all unmounted a layer before a layer derived from it" else
     let blocked := scope.filter fun n => (findD ls n).isSome &&
       (if a0.isEmpty then blockedAll v.pre ls v.users (ls.length + 1) n else unmountBlocked v.pre v.users n)
+    -- a busy layer, or one under a mounted overlay that stays, is skipped: no call may touch it
+    match sys.find? (fun s => blocked.contains ((owner s.tgt).getD [])) with
+    | some s => bad ("unmount of " ++ showB s.tgt ++ " although its layer is busy or lies under a mounted overlay that is not unmounted")
+    | none =>
     if clsOf v == "ok" then
       let left := scope.filter fun n => (findD ls n).isSome && mountedAtOrBelow v.post n
       if !left.isEmpty then bad ("umount succeeded but " ++ showB (left.headD []) ++ " still has mounts")
